@@ -1,30 +1,113 @@
 (* C14 — the eight board symmetries commute with the rules.
-   Only statements, `exact`, and Print Assumptions live here. *)
-From Coq Require Import ZArith List Lia Bool.
-Require Import Sym.
+   Only statements, `exact`, and Print Assumptions live here.
+   Proof files: Sym.v (group table), SymRules1-4.v (Rules.v level), SymCode1-2.v (code-shaped TransformMove / Move). *)
+From Coq Require Import NArith ZArith List Lia Bool.
+Require Import Rules Sym SymRules1 SymRules2 SymRules3 SymRules4.
+Require Import Board Move GameOver Tps Symmetry Refine SymCode1 Canon2 SymCode2.
 Import ListNotations.
+Close Scope Z_scope. Close Scope N_scope.
 
-(* The eight coordinate maps of symmetry/canonical.go on an n x n board (any n) form a group: composition is
-   given by comp (closure), inv gives inverses; each maps the board onto itself and preserves orthogonal
-   adjacency - the basis of road invariance and of slide-direction transport.
-   C14_partial: rules_equivariant (rules_move (img s b) (tm s m) = option_map (img s) (rules_move b m) on Rules.v)
-   and its transport to the bit level through C01/C02 are still to be proved (DESIGN 5.14); the
-   commutation itself is decided by the correspondence + independent oracle for now. *)
-Theorem C14_group_closed_partial : forall n a b, (a < 8)%nat -> (b < 8)%nat -> forall xy, sym n a (sym n b xy) = sym n (comp a b) xy.
+(* ---- the group (any n): closure by the table comp, inverses, the board is mapped onto itself, adjacency is preserved ---- *)
+Theorem C14_group_closed : forall n a b, a < 8 -> b < 8 -> forall xy, sym n a (sym n b xy) = sym n (comp a b) xy.
 Proof. exact comp_ok. Qed.
-Print Assumptions C14_group_closed_partial.
+Print Assumptions C14_group_closed.
 
-Theorem C14_group_inverse_partial : forall n a, (a < 8)%nat -> forall xy, sym n (inv a) (sym n a xy) = xy.
+Theorem C14_group_inverse : forall n a, a < 8 -> forall xy, sym n (inv a) (sym n a xy) = xy.
 Proof. exact inv_ok. Qed.
-Print Assumptions C14_group_inverse_partial.
+Print Assumptions C14_group_inverse.
 
-Theorem C14_on_board_partial : forall n a x y, (a < 8)%nat -> (0 <= x < n)%Z -> (0 <= y < n)%Z ->
+Theorem C14_on_board : forall n a x y, a < 8 -> (0 <= x < n)%Z -> (0 <= y < n)%Z ->
   (0 <= fst (sym n a (x, y)) < n /\ 0 <= snd (sym n a (x, y)) < n)%Z.
 Proof. exact sym_on_board. Qed.
-Print Assumptions C14_on_board_partial.
+Print Assumptions C14_on_board.
 
-Theorem C14_adjacency_preserved_partial : forall n a p q, (a < 8)%nat ->
+Theorem C14_adjacency_preserved : forall n a p q, a < 8 ->
   (Z.abs (fst p - fst q) + Z.abs (snd p - snd q) = 1)%Z ->
   (Z.abs (fst (sym n a p) - fst (sym n a q)) + Z.abs (snd (sym n a p) - snd (sym n a q)) = 1)%Z.
 Proof. exact sym_adjacent. Qed.
-Print Assumptions C14_adjacency_preserved_partial.
+Print Assumptions C14_adjacency_preserved.
+
+(* ---- DESIGN 5.14 rules_equivariant, on Rules.v.  img k b: the board whose stack at (sym k (x,y)) is b's stack at (x,y), reserves, ply, n
+   unchanged (C14_img_stack).  tm k n m: coordinates mapped, slide direction (type codes 5..8) mapped, the Slides word kept for type codes >= 5
+   and zero for type codes < 5 (that is what TransformMove returns; the rules ignore the Slides word of a placement).
+   For EVERY raw move value: illegal, off-board, bad type code (both sides None).  well_shaped b: 3 <= n b <= 8, length (sq b) = n*n. ---- *)
+Theorem C14_img_stack : forall k p x y, k < 8 -> size_ok (n p) -> on_board p x y = true ->
+  let xy := symb (n p) k (x, y) in stack_at (img k p) (fst xy) (snd xy) = stack_at p x y.
+Proof. exact stack_at_img_sym. Qed.
+Print Assumptions C14_img_stack.
+
+Theorem C14_rules_equivariant : forall k b m, k < 8 -> well_shaped b ->
+  rules_move (img k b) (tm k (Z.of_nat (n b)) m) = option_map (img k) (rules_move b m).
+Proof. exact rules_equivariant. Qed.
+Print Assumptions C14_rules_equivariant.
+
+(* the images compose like the table (so the eight images of a board are an orbit), and k / inv k undo each other *)
+Theorem C14_img_comp : forall a b p, a < 8 -> b < 8 -> size_ok (n p) -> img a (img b p) = img (comp a b) p.
+Proof. exact img_comp. Qed.
+Print Assumptions C14_img_comp.
+
+Theorem C14_tm_comp : forall a b s m, a < 8 -> b < 8 -> tm a s (tm b s m) = tm (comp a b) s m.
+Proof. exact tm_comp. Qed.
+Print Assumptions C14_tm_comp.
+
+Theorem C14_img_inv : forall k b, k < 8 -> well_shaped b -> img (inv k) (img k b) = b.
+Proof. exact img_inv. Qed.
+Print Assumptions C14_img_inv.
+
+(* ---- DESIGN 5.14 road_invariant: roads, flat counts, fullness, reserves and side to move, hence the outcome (game over, winner, reason) ---- *)
+Theorem C14_road_invariant : forall k b c, k < 8 -> well_shaped b -> Road (img k b) c <-> Road b c.
+Proof. exact road_invariant. Qed.
+Print Assumptions C14_road_invariant.
+
+Theorem C14_flat_count_invariant : forall k b c, k < 8 -> well_shaped b -> flat_count (img k b) c = flat_count b c.
+Proof. exact flat_count_invariant. Qed.
+Print Assumptions C14_flat_count_invariant.
+
+Theorem C14_board_full_invariant : forall k b, k < 8 -> well_shaped b -> board_full (img k b) = board_full b.
+Proof. exact board_full_invariant. Qed.
+Print Assumptions C14_board_full_invariant.
+
+Theorem C14_reserves_invariant : forall k b,
+  wstones (img k b) = wstones b /\ wcaps (img k b) = wcaps b /\ bstones (img k b) = bstones b /\ bcaps (img k b) = bcaps b /\
+  ply (img k b) = ply b /\ to_move (img k b) = to_move b /\ n (img k b) = n b /\ Rules.black_wins_ties (img k b) = Rules.black_wins_ties b.
+Proof. exact reserves_invariant. Qed.
+Print Assumptions C14_reserves_invariant.
+
+Theorem C14_outcome_invariant : forall k b o, k < 8 -> well_shaped b -> Outcome (img k b) o <-> Outcome b o.
+Proof. exact outcome_invariant. Qed.
+Print Assumptions C14_outcome_invariant.
+
+(* ---- the code-shaped TransformMove (int8 flips, direction re-derived from the transformed end point) IS tm on transformable moves:
+   coordinates in [-64,64) (all on-board squares and near misses: there the int8 arithmetic is exact), type code <= 8, a slide has >= 1 drop.
+   Outside that it panics (C14_transform_move_panics): forced by the code, reported. ---- *)
+Theorem C14_transform_move_tm : forall k s m, k < 8 -> size_ok s -> transformable m ->
+  transform_move (csym s k) m = Ok (tmr k s m) /\ raw (tmr k s m) = tm k (Z.of_nat s) (raw m).
+Proof. exact transform_move_tm_raw. Qed.
+Print Assumptions C14_transform_move_tm.
+
+Theorem C14_transform_move_panics : forall s k m, k < 8 -> size_ok s -> (-64 <= mX m < 64)%Z -> (-64 <= mY m < 64)%Z ->
+  ((5 <= mT m <= 8)%N /\ mS m = 0%N) \/ (9 <= mT m)%N -> transform_move (csym s k) m = Panic.
+Proof. exact transform_move_panics. Qed.
+Print Assumptions C14_transform_move_panics.
+
+(* ---- DESIGN 5.14 move_equivariant, through C01: for p, q satisfying the C01 invariant (c01_inv = the hypotheses of move_refines_rules:
+   size 3..8, board_ok, reserves < 256, no stack above 64 - size) with abs q = img k (abs p), Position.Move on q with TransformMove's image
+   of m succeeds/fails exactly as Move on p with m, the results correspond again, and nothing panics.
+   PARTIAL with respect to DESIGN's statement: q is any position that shows the image, not yet Symmetry.image (the rebuild through
+   from_squares: abs (image p s) = img k (abs p) is not proved here), and Pass (type code 1) is excluded as in C01.
+   gameover_invariant at the bit level (needs C02's has_road_iff) and symmetries_exact are not proved: they are covered by the
+   correspondence and the independent oracle. ---- *)
+Theorem C14_move_equivariant_partial : forall k p q m, k < 8 -> c01_inv p -> c01_inv q -> abs q = img k (abs p) -> transformable m -> mT m <> 1%N ->
+  match transform_move (csym (N.to_nat (size p)) k) m with
+  | Ok m' => match mv p m, mv q m' with
+             | Ok p', Ok q' => abs q' = img k (abs p')
+             | Err, Err => True
+             | _, _ => False
+             end
+  | _ => False
+  end.
+Proof. exact move_equivariant_code. Qed.
+Print Assumptions C14_move_equivariant_partial.
+
+(* non-vacuity: SymRules3.ex_equivariant (5x5, a two-high stack slides, k = 6), ex_equivariant_illegal, ex_road (3x3 road and its image),
+   SymCode1.ex_transform. *)
